@@ -43,6 +43,17 @@ def put_key(ptype, pgno, subno):
 def valid_pgno(p):
     return 0x100 <= p <= 0x8FF and (p & 0xFF) != 0xFF
 
+_ALLV = None
+def put_replaces_all():
+    """documented behaviour of a store under a single-version key (mask 0): with
+    fixes/C10-put-replaces-all-versions.diff in the source ALL cached versions of the page number are replaced, before it
+    only the most recently used one (finding F17).  Which text the source has is read by translate/gen_cache.py."""
+    global _ALLV
+    if _ALLV is None:
+        t = open(os.path.join(verif.LEAN, "ZvbiModel", "Generated", "CacheLayout.lean")).read()
+        _ALLV = "def putReplacesAllVersions : Bool := true" in t
+    return _ALLV
+
 
 class Entry:
     __slots__ = ("net", "pgno", "subno", "func", "x26", "x28", "tag", "live", "refs")
@@ -72,6 +83,9 @@ class Abs:
         self.deleted = False
         self.pressure = False
         self.n_addnet = 0
+        self.purged = False     # a purge happened: zombie networks may exist, the counter rules below are off
+        self.prev = None        # (n_cached_pages, n_cached_networks) after the previous op
+        self.last_unref = None  # (entry, last reference released) of the unref being judged
 
     # -- helpers
     def net_of(self, h):
@@ -103,10 +117,38 @@ class Abs:
         if self.deleted:
             return None if res == "rej deleted" else "op after delete answered '%s'" % res
         k = w[0]
+        self.last_unref = None
         try:
-            return getattr(self, "op_" + k)(w, res)
+            r = getattr(self, "op_" + k)(w, res)
         except (AttributeError, ValueError, IndexError):
             return None if res.startswith("rej") else "malformed op accepted: '%s' -> '%s'" % (op, res)
+        return r or self.counters(k, out)
+
+    QUIET = ("get", "ref", "iscached", "hisubno", "foreach", "ptype", "statreset", "netref")
+
+    def counters(self, k, out):
+        """nothing leaves the cache without a reason (no memory limit in force, no purge so far): look-ups,
+        references, statistics never change the number of cached pages / networks; releasing a page reference
+        frees at most that page, and only when it had been replaced - in particular the page's network and its
+        other pages stay (an unreferenced network is kept until the network limit is exceeded)"""
+        m = re.search(r" \| c=(\d+) m=\d+ n=(\d+) ", out)
+        if not m:
+            return None
+        cur = (int(m.group(1)), int(m.group(2)))
+        prev, self.prev = self.prev, cur
+        if prev is None or self.pressure or self.purged or k == "purge":
+            return None
+        if k in self.QUIET and cur != prev:
+            return "'%s' changed the number of cached pages / networks: %s -> %s" % (k, prev, cur)
+        if k == "unref" and self.last_unref is not None:
+            e, last = self.last_unref
+            if e.net.fuzzy:
+                return None
+            exp = (prev[0] - 1, prev[1]) if (last and not e.live) else prev
+            if cur != exp:
+                return ("releasing a page reference changed the number of cached pages / networks %s -> %s, expected %s "
+                        "(pages or a network left the cache although no limit is exceeded)" % (prev, cur, exp))
+        return None
 
     @staticmethod
     def num(s, mx, neg=False):
@@ -230,9 +272,12 @@ class Abs:
             if len(f) > 3 and f[3] == str(put_key(CLOCK, pgno, subno)[0]):
                 sub = int(f[3])
         old = self.find(n, pgno, sub & mask, mask)
-        if old is not None:
-            n.entries.remove(old)
-            old.live = False
+        olds = [] if old is None else [old]
+        if old is not None and mask == 0 and put_replaces_all():
+            olds = [x for x in n.entries if x.pgno == pgno]
+        for x in olds:
+            n.entries.remove(x)
+            x.live = False
         e = Entry(n, pgno, sub, func, x26, x28, tag)
         n.entries.insert(0, e)
         self.ph[h] = e
@@ -323,6 +368,7 @@ class Abs:
             return self.expect(res, "rej handle")
         self.ph[h] = None
         e.refs -= 1
+        self.last_unref = (e, e.refs == 0)
         # held page intact until released, also when replaced (zombie) or its network was dropped
         return self.expect(res, "ok %d %d %d" % (e.pgno, e.subno, e.tag))
 
@@ -358,6 +404,7 @@ class Abs:
 
     def op_purge(self, w, res):
         if len(w) != 1: raise ValueError
+        self.purged = True
         for n in self.nets:
             for e in list(n.entries):
                 if e.refs == 0:
@@ -634,23 +681,29 @@ def case_malformed(rng, n):
 class C10(verif.Spec):
     prop = "C10"
     comp = "cache"
-    lean_modules = ["ZvbiModel.Props.C10", "ZvbiModel.Props.C10Ttx"]
+    lean_modules = ["ZvbiModel.Props.C10", "ZvbiModel.Props.C10Ttx", "ZvbiModel.Props.C10Evict"]
     harness = "cache_harness"
     harness_link_lib = True
     harness_extra = ["-DDLIST_CONSISTENCY=1"]
     timeout_per_case = 5.0
-    partial_note = ("full for the bookkeeping invariant (all operations, all histories, eviction paths included), look-up / store "
-                    "refinement, held_page_intact (all operations and histories), channel switch, teardown, and the refinement of "
-                    "the Teletext decoder model's page list to the same abstract map (Props/C10Ttx); counters-exact holds modulo "
-                    "65536 for uint16_t n_subpages and the page count per page number is unbounded (F17, proved witnesses); "
-                    "hi_subno_agrees and walk order/termination (C17) not proved")
+    partial_note = ("full, for both source shapes of _vbi_cache_put_page (as found / with fixes/C10-put-replaces-all-versions.diff; "
+                    "the translator reads which one the source has): bookkeeping invariant incl. memory_used <= limit (all operations, "
+                    "all histories, any memory limit, eviction paths), held_page_intact, eviction respects references, recycle only of "
+                    "unreferenced networks, networks kept on page release / until the network limit is exceeded, look-up refinement, "
+                    "channel switch, teardown, hi_subno_agrees under the exact no-wrap hypothesis (Tame); store refinement "
+                    "(refines_map_put, sim_put) is proved for the shape as found; counters-exact holds modulo 65536 for uint16_t "
+                    "n_subpages and the page count per page number is unbounded on the shape as found (F17, proved witnesses); for the "
+                    "repaired shape unique_key_repaired (the cache is a map) and version_bound_repaired (<= 256 cached versions per "
+                    "page number) are proved, the list form of the store refinement (aputR, MRU order) is stated (open) and validated "
+                    "by the abstract-map oracle; both shapes of the start look-up of _vbi_cache_foreach_page "
+                    "(fixes/C17-turn-3f7f.diff) are modelled and proved; walk order/termination are C17's")
     assumptions = ["clients pass only pointers they hold a reference on (the harness / driver enforce it: `rej handle`)",
                    "0x100 <= pgno <= 0x8FF for put / hi_subno / foreach (asserted by cache_network_page_stat; callers guarantee it)",
                    "subpage numbers and designation sets fit 16 bits; unsigned int counters do not overflow (2^32 events)",
                    "malloc succeeds (the out-of-memory path of put is not modelled)",
                    "store refinement (refines_map_put) assumes memory is not short - true in libzvbi 0.2 while the cache holds "
                    "<= 0x800*80 pages (limit_unreachable_0_2); F17 shows the page count itself is not bounded"]
-    open_statements = ["hi_subno_agrees_full"]
+    open_statements = ["hi_subno_agrees_full", "refines_map_put_repaired_full"]
     trusted_base = ["lean/ZvbiModel/Cache/Model.lean: hand-written reading of src/cache.c (representation argued in NOTES/C10.md); "
                     "tied to the code by the correspondence run: every answer carries a digest of the complete cache state",
                     "translate/gen_cache.py (struct sizes, HASH_SIZE, death_row extent, limits; cross-checked by the `sizes` op)",
